@@ -6,7 +6,7 @@
 (* GENERATOR of the histories replayed on the real code: TLC enumerates the complete    *)
 (* graph (act is hidden by the VIEW) and logs every transition (LogEdge); simulation    *)
 (* mode adds long random histories (CRDTSim.tla).                                       *)
-EXTENDS CRDTSem, Json, CSV
+EXTENDS CRDTSem, Json, CSV, SequencesExt
 
 CONSTANTS Kind,      \* "gcounter" | "set"  (the set histories are replayed on AWORSet and on LWWSet)
           NRep, NElem, Amts, MaxUpd, MaxSnap
@@ -68,6 +68,15 @@ PrefixObserved == \A r \in Reps : \A x \in know[r] : x.op = "rem" =>
 \* knowledge only grows
 Monotone == [][\A r \in Reps : know[r] \subseteq know'[r]]_pvars
 
-\* generator: one JSON line per transition of the complete graph
-LogEdge == CSVWrite("%1$s", <<ToJson([src |-> ToString(pvars), dst |-> ToString(pvars'), act |-> act'])>>, "edges.ndjson")
+\* generator: one JSON line per transition of the complete graph.  The state identifier is a
+\* canonical string (sorted sequences of ids; TLC prints un-normalised sets/records in any order).
+SortIds(S) == SetToSortSeq(S, LAMBDA a, b : a < b)
+SId(k, p, n) ==
+    LET all == UNION {k[r] : r \in Reps}
+        ev(i) == CHOOSE x \in all : x.id = i
+    IN ToString(<< [i \in 1..n |-> <<ev(i).r, ev(i).op, ev(i).e, ev(i).amt, SortIds(ev(i).obs)>>],
+                   [r \in Reps |-> SortIds({x.id : x \in k[r]})],
+                   [s \in Slots |-> SortIds({x.id : x \in p[s]})] >>)
+LogEdge == CSVWrite("%1$s", <<ToJson([src |-> SId(know, pool, nupd), dst |-> SId(know', pool', nupd'), act |-> act'])>>,
+                    "edges.ndjson")
 =============================================================================
